@@ -58,6 +58,10 @@ def run_state(params, regs_ops, flavour='adapter'):
                         got = reg.lookup(specs, p, name, sentinel)
                         what = 'registrations=%s; reg%d.lookup((%s), P%d, %r)' % (
                             _fmt(u, regs_ops), ri, ', '.join(u.lookup_names()[c] for c in combo), pi, name)
+                        again = reg.lookup(specs, p, name, sentinel)      # the same key once more (answer cached by now)
+                        if again is not got:
+                            raise Violation('%s returned %r, the same call repeated returns %r' % (what, got, again),
+                                            signature='C04:repeat-differs')
                         if not adm:
                             if got is not sentinel:
                                 raise Violation('%s returned %r, no registration applies (default expected)' % (what, got),
